@@ -1,6 +1,6 @@
 SPECIFICATION TraceSpec
 CONSTANTS
-  CfgNames = {"one", "sizes", "wts", "ties", "zero", "dup", "lead0", "fam", "mix3"}
+  CfgNames = {"one", "sizes", "wts", "ties", "zero", "dup", "lead0", "fam", "allzero", "mix3"}
   LibVers = {0, 1, 2, 3, 4}
   Fams = {4, 6}
   NSel = 1
